@@ -9,7 +9,7 @@ from __future__ import annotations
 import copy
 
 SURVEY_COLS = ["type", "name", "label", "relevant", "calculation", "parameters", "appearance", "choice_filter", "trigger", "repeat_count", "default", "constraint", "media::big-image", "save_to"]
-CHOICE_COLS = ["list_name", "name", "label", "grp"]
+CHOICE_COLS = ["list_name", "name", "label", "grp", "image"]
 
 # base forms: (kind, row dict) per survey row; kinds are the vocabulary Catalogue.tla uses
 BASES = [
@@ -250,6 +250,21 @@ def apply(mid: str, m: dict, i: int):
         if i == 0 or C[i - 1]["list_name"] != C[i]["list_name"]:
             return None
         C[i]["name"] = C[i - 1]["name"]
+        return [C[i]["name"]]
+    if mid == "dup_choice_labelless":
+        # the duplicate is a legal label-less choice (image only): it must still be reported as a duplicate
+        if i == 0 or C[i - 1]["list_name"] != C[i]["list_name"]:
+            return None
+        C[i]["name"] = C[i - 1]["name"]
+        C[i].pop("label", None)
+        C[i]["image"] = "pic.png"
+        return [C[i]["name"]]
+    if mid == "dup_choice_first_labelless":
+        if i == 0 or C[i - 1]["list_name"] != C[i]["list_name"]:
+            return None
+        C[i]["name"] = C[i - 1]["name"]
+        C[i - 1].pop("label", None)
+        C[i - 1]["image"] = "pic.png"
         return [C[i]["name"]]
     if mid == "selm_choice_space":
         if C[i]["list_name"] != "M":
